@@ -722,6 +722,70 @@ impl LongTermCredentialClient {
         assert(lt_integrity_ok(*self, *attributes));
     }
 //@end
+//@item stun_agent :: mod lt_cred_mech > impl LongTermCredentialClient > fn retry_from_unauthenticated_error_response
+//@tags C08 C13
+//@sub "remove_auth_and_integrity_attrs(attributes);" => "lt_remove_auth_and_integrity_attrs(attributes);"
+//@tail
+    proof {
+        assert(attributes.attributes@ =~= lt_cleared(old(attributes).attributes@) + lt_cred_seq(*self, true));
+    }
+//@spec
+    requires old(attributes).wf(),
+    ensures final(attributes).wf(), *final(self) == *old(self),
+        old(self).params is None ==> r is Err && r->Err_0 is InternalError && *final(attributes) == *old(attributes),
+        old(self).params is Some ==> r is Ok
+            && final(attributes).attributes@ == lt_cleared(old(attributes).attributes@) + lt_cred_seq(*old(self), true)
+            && final(attributes).fingerprint == old(attributes).fingerprint,
+        // C08: the retry after the 401 challenge must carry an integrity attribute under the derived key
+        old(self).params is Some ==> lt_integrity_ok(*old(self), *final(attributes)),
+//@end
+//@item stun_agent :: mod lt_cred_mech > impl LongTermCredentialClient > fn retry_from_stale_nonce_error_response
+//@tags C08 C13
+//@sub "remove_auth_and_integrity_attrs(attributes);" => "lt_remove_auth_and_integrity_attrs(attributes);"
+//@tail
+    proof {
+        assert(attributes.attributes@ =~= lt_cleared(old(attributes).attributes@) + lt_cred_seq(*self, false));
+        assert(lt_integrity_ok(*self, *attributes));
+    }
+//@spec
+    requires old(attributes).wf(),
+    ensures final(attributes).wf(), *final(self) == *old(self),
+        old(self).params is None ==> r is Err && r->Err_0 is InternalError && *final(attributes) == *old(attributes),
+        old(self).params is Some ==> r is Ok
+            && final(attributes).attributes@ == lt_cleared(old(attributes).attributes@) + lt_cred_seq(*old(self), false)
+            && final(attributes).fingerprint == old(attributes).fingerprint
+            && lt_integrity_ok(*old(self), *final(attributes)),
+        // C08: the retry after a 438 must still carry the offered PASSWORD-ALGORITHMS and the chosen PASSWORD-ALGORITHM
+        old(self).params is Some ==> final(attributes).attributes@ == lt_cleared(old(attributes).attributes@) + lt_cred_seq(*old(self), true),
+//@end
+//@item stun_agent :: mod lt_cred_mech > impl LongTermCredentialClient > fn prepare_request
+//@tags C08 C13
+//@spec
+    requires old(attributes).wf(), old(self).wf(),
+    ensures final(attributes).wf(), *final(self) == *old(self),
+        r is Ok, !(r is Err && r->Err_0 is MaxOutstandingRequestsReached),
+        final(attributes).fingerprint == old(attributes).fingerprint,
+        // first request: no credential attributes at all
+        old(self).state is FirstRequest ==> final(attributes).attributes@ == lt_cleared(old(attributes).attributes@)
+            && final(attributes).integrity is None && final(attributes).integrity_sha256 is None,
+        // every later request (see the two known findings for the Retry states)
+        old(self).state is SubsequentRequest ==> lt_prepared(*old(self), *old(attributes), *final(attributes)),
+        old(self).state is Retry ==> lt_prepared(*old(self), *old(attributes), *final(attributes)),
+//@end
+//@item stun_agent :: mod lt_cred_mech > impl LongTermCredentialClient > fn prepare_indication
+//@tags C08
+//@spec
+    ensures r is Err && r->Err_0 is Ignored, *final(self) == *old(self), *final(_attributes) == *old(_attributes),
+//@end
+//@item stun_agent :: mod lt_cred_mech > impl LongTermCredentialClient > fn signal_protection_violated_on_timeout
+//@tags C08 C17
+//@spec
+    ensures final(self).user_name == old(self).user_name, final(self).password == old(self).password,
+        final(self).params == old(self).params, final(self).state == old(self).state,
+        final(self).validator.is_reliable == old(self).validator.is_reliable,
+        r == old(self).violated().contains(*transaction_id),
+        final(self).violated() == old(self).violated().remove(*transaction_id),
+//@end
 }
 proof fn vx_sentinel() ensures false {}
 } // verus!
